@@ -7,11 +7,15 @@ TRACE = ("Trace_Goal", "Trace_Goal.cfg")
 EXHAUSTIVE = True
 RULE = ("TLC enumerates goal regions per dimension and hands each one over with its probe states: all 1176 angle "
         "intervals (start -24..24, length 0..23 on the pi/12 grid) x (49 grid angles + the int 0 + 9 point-mass "
-        "velocity vectors); 18 regions (rect, disc, polygon, group, lanelets) x a 13x13 half-integer probe grid for "
-        "kinematic and point-mass states; all time intervals on 0..6 / velocity intervals on -1..3 and 16 combinations "
-        "x 95 states; 64 mixed goal states and 192 two-state regions x 64 mixed states, plus 16 trajectories of 1..3 "
-        "states for PlanningProblem.goal_reached; plus seeded random regions of 1..3 goal states with larger values. "
-        "Goal states are built as KSState and as CustomState (alternating by case). "
+        "velocity vectors; thorough: + magnitude-2 vectors and 8 angles beyond +-2pi); 18 regions (rect, disc, polygon, "
+        "group, lanelets) x a 13x13 half-integer probe grid for kinematic and point-mass states; all time intervals "
+        "on 0..6 / velocity intervals on -1..3 and 16 combinations x 95 states; 64 mixed goal states and 192 (thorough "
+        "384) two-state regions x 64 mixed states, plus 16 trajectories of 1..3 states for PlanningProblem.goal_reached; "
+        "plus 400 (thorough 4000) seeded random regions of 1..3 goal states with larger values, 30 states and up to 4 "
+        "trajectories each. Goal states are built as KSState and as CustomState (alternating by case); lanelet goals "
+        "as the ShapeGroup of lanelet polygons looked up in a LaneletNetwork + lanelets_of_goal_position. "
+        "Signatures: exceptions are grouped by goal shape / angle-interval length class / value type, wrong verdicts "
+        "by goal shape / heading group of the point-mass state. "
         "distinct_nontrivial = distinct goal regions with at least one constraint besides time.")
 ASSUMPTIONS = ["time_step is mandatory in a goal state (GoalRegion rejects goal states without it), so the spec-level "
                "law 'no constraint => always reached' is exercised on the code as 'time interval covering all steps'",
@@ -26,10 +30,6 @@ ASSUMPTIONS = ["time_step is mandatory in a goal state (GoalRegion rejects goal 
 
 _DIRS = {(1, 0): "E", (1, 1): "NE", (0, 1): "N", (-1, 1): "NW", (-1, 0): "W", (-1, -1): "SW", (0, -1): "S",
          (1, -1): "SE", (0, 0): "zero"}
-
-
-def _sgn(x):
-    return (x > 0) - (x < 0)
 
 
 def _pm_dir(s):
